@@ -6,8 +6,8 @@
    published is the publish model (Props/C03.v); that the queued files are the
    selected/parsed ones is C09/C10.  The implementation-side fsck oracle checks
    the end-to-end statement on every run. *)
-From AM.Model Require Import Base Download Pipeline Stage.
-From AM.Lemmas Require Import DownloadLemmas PipelineLemmas StageRunLemmas StageComplete.
+From AM.Model Require Import Base Download Pipeline Stage Converge RepoRun.
+From AM.Lemmas Require Import DownloadLemmas PipelineLemmas StageRunLemmas StageComplete ConvergeLemmas RepoComplete.
 Open Scope string_scope.
 Open Scope list_scope.
 
@@ -82,3 +82,24 @@ Theorem clean_stage_is_complete :
   obtained_variant r <> None /\ complete_in f r fs'.
 Proof. exact clean_stage_is_complete_lemma. Qed.
 Print Assumptions clean_stage_is_complete.
+
+(* The stages composed (Model/RepoRun.v: metadata stage into skel, the staged view
+   = every path of every obtained variant, pool queue = any function of that view,
+   pool stage + cleaning).  For ANY upstream behaviour (faults, retries, missing
+   variants) and ANY previous skel and mirror: a repository run that succeeds has
+   staged, for every required metadata file, all paths of one of its variants -
+   each with the size the Release file declares - and leaves exactly the declared
+   pool: every path the indices name at its declared size, nothing else. *)
+Theorem successful_repository_run_is_complete :
+  forall metaq poolq u skel mirror view pool,
+  disjoint_files metaq ->
+  (forall f v, In f metaq -> In v (variants f) -> In (vsource v) (vpaths v)) ->
+  (forall f, In f metaq -> check_size f = false) ->
+  (forall vw, disjoint_files (poolq vw) /\ forallb required_pool_file (poolq vw) = true) ->
+  repo_run metaq poolq u skel mirror = Some (view, pool) ->
+  (forall f, In f metaq -> ignore_errors f = false -> ignore_missing f = false ->
+     exists v, In v (variants f) /\
+       forall q, In q (vpaths v) -> exists i, In (q, Some i) view /\ ((0 < vsize v)%N -> fsize i = vsize v)) /\
+  (forall p, sizes pool p = declared (poolq view) p).
+Proof. exact successful_repo_run_complete_lemma. Qed.
+Print Assumptions successful_repository_run_is_complete.
